@@ -24,10 +24,6 @@ type Case struct {
 	Late string `json:"late,omitempty"`
 	// Wild: statements added without a reference outcome (see addWild).
 	Wild []string `json:"wild,omitempty"`
-	// Older: an older revision of this module of the set is loaded too (same namespace and prefix; a shorthand
-	// choice, an augment of its own, nothing refers to it). Its tree must be as proper as the others.
-	Older      string `json:"older_revision_of,omitempty"`
-	OlderFirst bool   `json:"older_first,omitempty"`
 }
 
 func kindName(e *yang.Entry) string {
@@ -158,14 +154,6 @@ func check(c Case) (o ev.Outcome) {
 		return
 	}
 	srcs := schema.Sources(c.Set, c.Order)
-	if m := c.Set.Find(c.Older); m != nil && !m.IsSub && len(m.Revisions) > 0 {
-		old := ymodel.Source{Name: m.Name + "@2019-05-05.yang", Text: fmt.Sprintf("module %s {\n  namespace %s;\n  prefix %s;\n  revision 2019-05-05;\n  container oldc {\n    choice och { leaf oa { type string; } container ob { leaf x { type string; } } }\n  }\n  augment \"/%s:oldc\" { leaf oz { type string; } choice och2 { leaf ob2 { type string; } } }\n  rpc oldop { input { leaf i { type string; } } }\n}\n", m.Name, ymodel.Q(m.Namespace), m.Prefix, m.Prefix)}
-		if c.OlderFirst {
-			srcs = append([]ymodel.Source{old}, srcs...)
-		} else {
-			srcs = append(srcs, old)
-		}
-	}
 	var obs *schema.Observed
 	if !ev.Guard(&o, "load+process", func() { obs = schema.Load(srcs, nil) }) {
 		// crashes belong to C01; keep the signature distinct
@@ -202,7 +190,7 @@ func check(c Case) (o ev.Outcome) {
 		return
 	}
 	o.Class("clean")
-	if c.Older != "" {
+	if c.Set.OlderText() != nil {
 		o.Class("older-revision-also-loaded")
 	}
 	for _, f := range c.Wild {
@@ -393,17 +381,6 @@ func gen(t *rapid.T) Case {
 	c := Case{Set: set}
 	if rapid.IntRange(0, 3).Draw(t, "wild") == 0 {
 		c.Wild = addWild(t, set)
-	}
-	if rapid.IntRange(0, 4).Draw(t, "older-revision") == 0 {
-		var mods []*ymodel.Module
-		for _, m := range set.Modules {
-			if !m.IsSub {
-				mods = append(mods, m)
-			}
-		}
-		m := mods[rapid.IntRange(0, len(mods)-1).Draw(t, "older-of")]
-		m.Revisions = []string{"2021-12-31"}
-		c.Older, c.OlderFirst = m.Name, rapid.Bool().Draw(t, "older-first")
 	}
 	if rapid.IntRange(0, 7).Draw(t, "plant-in-rpc") == 0 && plantInRPC(t, set) {
 		c.Late = "unknown-type-below-rpc-input-output"
